@@ -1,6 +1,6 @@
 /-
 C10 — property theorems (every `theorem` in this module is a proof obligation; `bin/check C10` audits each one's axioms).
-Helper lemmas live in Kap/Proofs/C10*.lean.
+The proofs are in Kap/Proofs/C10Main.lean (+ C10, C10Hist, C10Batch, C10Flat); this module restates them.
 
 Statement (properties.jsonl): the output of where, eval, default, delete, shift, sample, derivative, changeDetect,
 stateCount, stateDuration, flatten, combine and groupBy equals the documented function of the input applied per point
@@ -10,26 +10,25 @@ What is proved here is about the MODEL (Kap/Model/C10.lean, transcribed from the
 to the code on every run and evaluates the same documented functions (Kap/Spec/C10.lean) on what the real nodes emitted.
 The aliasing half of the statement has no counterpart over immutable values: it is checked dynamically only.
 
-Several of the per-point theorems are short because model and documented function nearly coincide (where, shift); the
-substance is in the history statements of the stateful nodes and in `grouped_nodes_are_per_group`.
+Several per-point theorems are short because model and documented function nearly coincide (where, shift); the
+substance is in `grouped_nodes_are_per_group`, the history statements of the stateful nodes, the map theorems of
+default/delete and the flatten naming theorem. Not proved (kept as `…_stmt`): eval, flatten on a stream, groupBy's sort.
 -/
-import Kap.Proofs.C10Batch
-import Kap.Proofs.C10Flat
-set_option linter.unusedSimpArgs false
+import Kap.Proofs.C10Main
 namespace Kap.Props.C10
 open Kap.C10
 
 /-! ### Pipelines -/
 
 /-- A chain is the composition of its nodes. -/
-theorem pipeline_compositional (a b : List Node) (e : Edge) : runChain (a ++ b) e = runChain b (runChain a e) := by
-  simp [runChain, List.foldl_append]
+theorem pipeline_compositional (a b : List Node) (e : Edge) : runChain (a ++ b) e = runChain b (runChain a e) :=
+  Main.pipeline_compositional a b e
 
-/-- A fork hands the SAME value to every child: the edges below a node are the edges each child produces from the node's
-output, independently of its siblings. -/
+/-- A fork hands the SAME value to every child: the edges below a node are the node's output followed by what each child
+produces from that output, independently of its siblings. -/
 theorem fork_children_independent (n : Node) (c : Pipe) (cs : List Pipe) (e : Edge) :
-    (Pipe.node n (c :: cs)).outputs e = n.run e :: (c.outputs (n.run e) ++ ((Pipe.node n cs).outputs e).tail) := by
-  simp [Pipe.outputs, Pipe.outputs.outputsList]
+    (Pipe.node n (c :: cs)).outputs e = n.run e :: (c.outputs (n.run e) ++ ((Pipe.node n cs).outputs e).tail) :=
+  Main.fork_children_independent n c cs e
 
 /-! ### Groups -/
 
@@ -44,65 +43,29 @@ theorem grouped_nodes_are_per_group {σ : Type} (init : Point → σ) (step : σ
 /-! ### where, default, delete, shift -/
 
 /-- where keeps exactly the points whose predicate evaluates to true (errors drop), unchanged and in order. -/
-theorem where_spec (e : Expr) (ps : List Point) : whereStream e ps = specWhere e ps := by
-  unfold whereStream specWhere wherePass
-  congr 1; funext p
-  by_cases h : evalPred e p.fields p.tags = some true <;> simp [h]
+theorem where_spec (e : Expr) (ps : List Point) : whereStream e ps = specWhere e ps :=
+  Main.where_spec e ps
 
 /-- default: every field/tag of the output is the input's, else the configured default (tags: absent or empty) —
-for a configuration that is a map (distinct keys). -/
+for a configuration that is a map (distinct keys). Name, time and group dimensions are untouched. -/
 theorem default_spec (cf : Fields) (ct : Tags) (hf : (akeys cf).Nodup) (ht : (akeys ct).Nodup) (p : Point) :
-    (defaultPoint cf ct p).equivB (specDefault cf ct p) = true := by
-  have h1 : mapEqB (defaultTags ct p.tags) (tabulate (akeys p.tags ++ akeys ct) (specDefaultTag ct p.tags)) = true := by
-    apply mapEqB_of_forall
-    intro k
-    rw [defaultTags_lookup ct p.tags ht, aget_tabulate]
-    by_cases hk : k ∈ akeys p.tags ++ akeys ct
-    · simp [hk]
-    · simp only [List.mem_append, not_or] at hk
-      simp [hk, specDefaultTag, aget_none_of_not_mem _ _ hk.1, aget_none_of_not_mem _ _ hk.2]
-  have h2 : mapEqB (defaultFields cf p.fields) (tabulate (akeys p.fields ++ akeys cf) (specDefaultField cf p.fields)) = true := by
-    apply mapEqB_of_forall
-    intro k
-    rw [defaultFields_lookup cf p.fields hf, aget_tabulate]
-    by_cases hk : k ∈ akeys p.fields ++ akeys cf
-    · simp [hk]
-    · simp only [List.mem_append, not_or] at hk
-      simp [hk, specDefaultField, aget_none_of_not_mem _ _ hk.1, aget_none_of_not_mem _ _ hk.2]
-  simp [Point.equivB, defaultPoint, specDefault, specDefaultFT, h1, h2]
+    (defaultPoint cf ct p).equivB (specDefault cf ct p) = true :=
+  Main.default_spec cf ct hf ht p
 
 example : (akeys ([("v", Val.int 7)] : Fields)).Nodup ∧ (akeys ([("h", "x")] : Tags)).Nodup ∧
     aget (defaultPoint [("v", .int 7)] [("h", "x")] { name := "m", tags := [("h", "")], fields := [("w", .int 1)], time := 0 }).fields "v" = some (.int 7) ∧
     aget (defaultPoint [("v", .int 7)] [("h", "x")] { name := "m", tags := [("h", "")], fields := [("w", .int 1)], time := 0 }).tags "h" = some "x" := by
   decide
 
+/-- `equivB` is equality of the data as maps (so the statements above and below are about every key). -/
+theorem equivB_is_map_equality (a b : Point) :
+    a.equivB b = true ↔ (a.name = b.name ∧ a.time = b.time ∧ a.dims = b.dims ∧ a.byName = b.byName ∧
+      (∀ k, aget a.tags k = aget b.tags k) ∧ (∀ k, aget a.fields k = aget b.fields k)) :=
+  Main.equivB_is_map_equality a b
+
 /-- delete: listed fields/tags are gone, everything else is untouched, deleted tags leave the dimensions. -/
-theorem delete_spec (df dt : List String) (p : Point) : (deletePoint df dt p).equivB (specDelete df dt p) = true := by
-  have h1 : mapEqB (deleteKeys dt p.tags) (tabulate (akeys p.tags) (specDeleteAt dt p.tags)) = true := by
-    apply mapEqB_of_forall
-    intro k
-    rw [deleteKeys_lookup, aget_tabulate]
-    by_cases hk : k ∈ akeys p.tags
-    · simp [hk]
-    · simp [hk, specDeleteAt, aget_none_of_not_mem _ _ hk]
-  have h2 : mapEqB (deleteKeys df p.fields) (tabulate (akeys p.fields) (specDeleteAt df p.fields)) = true := by
-    apply mapEqB_of_forall
-    intro k
-    rw [deleteKeys_lookup, aget_tabulate]
-    by_cases hk : k ∈ akeys p.fields
-    · simp [hk]
-    · simp [hk, specDeleteAt, aget_none_of_not_mem _ _ hk]
-  have key : deletePoint df dt p =
-      { name := p.name, tags := deleteKeys dt p.tags, fields := deleteKeys df p.fields, time := p.time,
-        dims := p.dims.filter (fun d => !dt.contains d), byName := p.byName } := by
-    unfold deletePoint
-    by_cases hany : p.dims.any (fun d => dt.contains d) = true
-    · rw [if_pos hany]
-    · have hf : p.dims.filter (fun d => !dt.contains d) = p.dims :=
-        filter_eq_self_of_not_any p.dims (fun d => dt.contains d) (by simpa using hany)
-      rw [if_neg hany, hf]
-  rw [key]
-  simp [Point.equivB, specDelete, h1, h2]
+theorem delete_spec (df dt : List String) (p : Point) : (deletePoint df dt p).equivB (specDelete df dt p) = true :=
+  Main.delete_spec df dt p
 
 /-- shift moves the time and nothing else. -/
 theorem shift_spec (d : Int) (p : Point) : shiftPoint d p = specShift d p := rfl
@@ -142,48 +105,32 @@ theorem changeDetect_emits_on_change_from_last_emitted (fs : List String) (ps : 
 /-! ### Batch edges = the stream function on the points of each batch, one group, fresh state -/
 
 theorem batch_stream_agree_sample (n dur : Int) (b : Batch) :
-    (sampleBatch n dur b).points = (sampleStream n dur (b.points.map (toPt b.name))).map BPoint.ofPoint := by
-  simp only [sampleBatch, sampleStream, runGrouped_batch]
-  exact sample_batch_single n dur b.name b.points 0
+    (sampleBatch n dur b).points = (sampleStream n dur (b.points.map (toPt b.name))).map BPoint.ofPoint :=
+  Main.batch_stream_agree_sample n dur b
 
 theorem batch_stream_agree_derivative (c : DerivCfg) (b : Batch) :
-    (derivBatch c b).points = (derivStream c (b.points.map (toPt b.name))).map BPoint.ofPoint := by
-  simp only [derivBatch, derivStream, runGrouped_batch]
-  exact deriv_batch_single c b.name b.points none
+    (derivBatch c b).points = (derivStream c (b.points.map (toPt b.name))).map BPoint.ofPoint :=
+  Main.batch_stream_agree_derivative c b
 
 theorem batch_stream_agree_changeDetect (fs : List String) (b : Batch) :
-    (changeBatch fs b).points = (changeStream fs (b.points.map (toPt b.name))).map BPoint.ofPoint := by
-  simp only [changeBatch, changeStream, runGrouped_batch]
-  exact change_batch_single fs b.name b.points none
+    (changeBatch fs b).points = (changeStream fs (b.points.map (toPt b.name))).map BPoint.ofPoint :=
+  Main.batch_stream_agree_changeDetect fs b
 
 theorem batch_stream_agree_stateCount (e : Expr) (as : String) (b : Batch) :
-    (countBatch e as b).points = (countStream e as (b.points.map (toPt b.name))).map BPoint.ofPoint := by
-  simp only [countBatch, countStream, runGrouped_batch]
-  exact count_batch_single e as b.name b.points 0
+    (countBatch e as b).points = (countStream e as (b.points.map (toPt b.name))).map BPoint.ofPoint :=
+  Main.batch_stream_agree_stateCount e as b
 
 theorem batch_stream_agree_stateDuration (e : Expr) (as : String) (unit : Int) (b : Batch) :
-    (durBatch e as unit b).points = (durStream e as unit (b.points.map (toPt b.name))).map BPoint.ofPoint := by
-  simp only [durBatch, durStream, runGrouped_batch]
-  exact dur_batch_single e as unit b.name b.points none
+    (durBatch e as unit b).points = (durStream e as unit (b.points.map (toPt b.name))).map BPoint.ofPoint :=
+  Main.batch_stream_agree_stateDuration e as unit b
 
-/-- where / eval / default / delete / shift act on the points of a batch one by one, like on a stream. -/
+/-- where / eval / delete / shift act on the points of a batch one by one, like on a stream. -/
 theorem batch_stream_agree_pointwise (e : Expr) (c : EvalCfg) (df dt : List String) (d : Int) (b : Batch) :
     (whereBatch e b).points = ((whereStream e (b.points.map (toPt b.name))).map BPoint.ofPoint) ∧
     (evalBatch c b).points = ((evalStream c (b.points.map (toPt b.name))).map BPoint.ofPoint) ∧
     (deleteBatch df dt b).points = ((b.points.map (toPt b.name)).map (deletePoint df dt)).map BPoint.ofPoint ∧
-    (shiftBatch d b).points = ((b.points.map (toPt b.name)).map (shiftPoint d)).map BPoint.ofPoint := by
-  refine ⟨?_, ?_, ?_, ?_⟩
-  · simp only [whereBatch, whereStream, List.filter_map, List.map_map]
-    have : (BPoint.ofPoint ∘ toPt b.name) = id := by funext p; simp [ofPoint_toPt]
-    simp [this, Function.comp_def, toPt]
-  · simp only [evalBatch, evalStream]
-    induction b.points with
-    | nil => simp
-    | cons p r ih =>
-      simp only [List.filterMap_cons, List.map_cons, evalBPoint, evalPoint, toPt]
-      cases evalFT c p.fields p.tags <;> simp_all [BPoint.ofPoint, toPt, evalBPoint, evalPoint]
-  · simp [deleteBatch, deleteBPoint, deletePoint, toPt, BPoint.ofPoint, List.map_map, Function.comp_def]
-  · simp [shiftBatch, shiftPoint, toPt, BPoint.ofPoint, List.map_map, Function.comp_def]
+    (shiftBatch d b).points = ((b.points.map (toPt b.name)).map (shiftPoint d)).map BPoint.ofPoint :=
+  Main.batch_stream_agree_pointwise e c df dt d b
 
 /-! ### flatten -/
 
@@ -207,15 +154,21 @@ theorem flatten_old_leaks_prefix :
 
 /-- Counterexample (the defect repaired by d6d5125): snapshot ef0888e panicked on the first point of a group whenever the
 buffer had no capacity and the point did not fall into the initial bucket — on a stream: first point not aligned to the
-tolerance (b.time = first.Time(), unrounded); on a batch: always (b.time = zero) when the size hint was 0. -/
+tolerance (b.time = first.Time(), unrounded); on a batch: always (b.time = zero) when the size hint was 0
+(corpus/C10/combine-first-bucket-unaligned.ops, combine-batch-sizehint0.ops). -/
 theorem combine_old_panics :
-    combAddOldPanics 1000000000 (some 1000400000000) 0 1000400000000 = true ∧ (∀ tol t, combAddOldPanics tol none 0 t = true) := by
-  refine ⟨by decide, ?_⟩
-  intro tol t
-  simp [combAddOldPanics]
+    combAddOldPanics 1000000000 (some 1000400000000) 0 1000400000000 = true ∧ (∀ tol t, combAddOldPanics tol none 0 t = true) :=
+  Main.combine_old_panics
+
+/-- Every combination the greedy walk emits IS a documented one: its members are distinct positions of the bucket and
+member s satisfies lambda s. (The converse fails: next theorem.) -/
+theorem combine_greedy_sound {α : Type} (m : Nat → α → Bool) (l s : Nat) (rest sel : List α)
+    (h : assign m l s rest = some sel) : sel ∈ assignments m l s rest :=
+  Main.assign_mem_assignments m l s rest sel h
 
 /-- Recorded finding `combine-greedy-assignment`: with lambdas (TRUE, "h" == 'a') the pair {h=a, h=b} admits the
-assignment (b ↦ TRUE, a ↦ "h"=='a') but the greedy walk gives `a` to the first lambda and finds nobody for the second. -/
+assignment (b ↦ TRUE, a ↦ "h"=='a') but the greedy walk gives `a` to the first lambda and finds nobody for the second:
+nothing is emitted (corpus/C10/finding-combine-greedy-assignment.ops). -/
 theorem combine_greedy_misses_a_combination :
     ∃ (c : CombineCfg) (bucket : List BPoint), combineGreedyMisses c bucket = true ∧
       combineBucket c "m" [] false bucket = some [] :=
@@ -237,7 +190,8 @@ def eval_spec_stmt : Prop :=
     | _, _ => False
 
 /-- Recorded finding `eval-result-shadowed`: eval(lambda: "v" + 1, lambda: "v" * 2).as('v','y').keep() on v=1 — the second
-expression re-binds "v" to the field, the emitted v is the original 1, the result 2 is lost. -/
+expression re-binds "v" to the field, the emitted v is the original 1, the result 2 is lost
+(corpus/C10/finding-eval-result-shadowed.ops). -/
 theorem eval_shadowed_result_is_lost :
     ∃ (c : EvalCfg) (fields : Fields), evalShadowed c fields [] = true ∧
       (evalFT c fields []).map (fun r => aget r.1 "v") = some (some (.int 1)) ∧
